@@ -187,6 +187,8 @@ OnlyKnown ==
     /\ (pred[k].parse /\ ~pred[k].reparse) => k = "quoted"
     /\ ~pred[k].frame => k \in {"litplus", "lit8plus"} /\ v[Len(v)] = "LPT"
 KnownDeviates ==
-  /\ (pred["atom"].legal /\ HasRC) => ~pred["atom"].parse
-  /\ pred["quoted"].legal => ~pred["quoted"].reparse
+  /\ ("AtomCloseBraceRejected" \notin Fixed /\ pred["atom"].legal /\ HasRC)
+       => ~pred["atom"].parse
+  /\ ("QuotedRawStrayByte" \notin Fixed /\ pred["quoted"].legal)
+       => ~pred["quoted"].reparse
 =============================================================================
